@@ -6,6 +6,7 @@ import (
 	"bytes"
 	"time"
 
+	"github.com/klauspost/compress/gzip"
 	"github.com/miekg/dns"
 )
 
@@ -123,4 +124,35 @@ func vrtHarness_C19_bigBlocks() {
 		got, _, ok := dst.backend.Get(key(keys[i]))
 		vrtAssert("every entry reappears with its answer", vrtAnd(ok, ok && got.resp.Id == uint16(i)))
 	}
+}
+
+// Arbitrary content inside a well-formed gzip stream with the right dump header: the block
+// parser (length header, size limit, protobuf decoding) sees arbitrary bytes - a corrupted or
+// foreign file that passes the outer checks.  No panic, bounded allocation, terminates.
+func vrtHarness_C19_garbageBlocks() {
+	n := vrtChoice(vrtParam("max_payload", 12) + 1)
+	payload := vrtBytes(n)
+	if n >= 8 {
+		// the announced block length is tiny or beyond the limit (incl. the values with the top bit set);
+		// lengths in between only make the reader wait for bytes that never come (kept out: a
+		// symbolic allocation of up to 1 MiB is out of the engine's reach)
+		u := uint64(0)
+		for i := 0; i < 8; i++ {
+			u = u<<8 | uint64(payload[i])
+		}
+		vrtAssume(vrtOr(u <= 64, u > 1<<20))
+		vrtCover("announced length with the top bit set", u >= 1<<63)
+	}
+	var buf bytes.Buffer
+	gw, _ := gzip.NewWriterLevel(&buf, gzip.BestSpeed)
+	gw.Name = dumpHeader
+	_, werr := gw.Write(payload)
+	cerr := gw.Close()
+	vrtAssume(werr == nil && cerr == nil)
+	dst := NewCache(&Args{Size: 1024}, Opts{})
+	rn, err := dst.readDump(bytes.NewReader(buf.Bytes()))
+	vrtCover("garbage blocks rejected", err != nil)
+	vrtCover("garbage blocks accepted", err == nil)
+	vrtAssert("entries reported never exceed what the payload could hold", rn <= n)
+	vrtAssert("entries added never exceed what the payload could hold", dst.backend.Len() <= n)
 }
